@@ -4,8 +4,8 @@ import numpy as np
 from .oracles import graph as G
 
 FAMILIES = ('er_sparse', 'er_mid', 'er_dense', 'ring', 'ring_chords', 'clique_path', 'tree_chords',
-            'two_cliques', 'near_complete', 'isolated')
-BRIDGE_RICH = ('ring', 'ring_chords', 'clique_path', 'tree_chords', 'two_cliques', 'er_sparse')
+            'two_cliques', 'near_complete', 'isolated', 'hub', 'bipartite')
+BRIDGE_RICH = ('ring', 'ring_chords', 'clique_path', 'tree_chords', 'two_cliques', 'er_sparse', 'hub')
 
 
 def _und_support(rnd, n, family):
@@ -54,6 +54,18 @@ def _und_support(rnd, n, family):
             for b in range(h, n):
                 add(a, b)
         add(h - 1, h)
+    elif family == 'hub':
+        # one hub joined to everybody plus a few leaf-leaf edges: almost every pair of edges shares the hub
+        for a in range(1, n):
+            add(0, a)
+        for _ in range(rnd.randint(1, 3)):
+            add(rnd.randrange(1, n), rnd.randrange(1, n))
+    elif family == 'bipartite':
+        h = rnd.randint(2, n - 2)
+        for a in range(h):
+            for b in range(h, n):
+                if rnd.random() < 0.8:
+                    add(a, b)
     elif family == 'near_complete':
         A[:] = True
         np.fill_diagonal(A, False)
